@@ -86,6 +86,12 @@ func decodeTLB(c *core.Ctx, t reflect.Type, root *ref.RCell, d int) error {
 			lib.tree = root
 			root = ref.NewRCell(ref.Bits{}.AppendUint(2, 8).AppendBytes(root.ReprHash()), true)
 			c.Class("input behind a library cell")
+		} else if c.Choose("lib.again", 6) == 0 {
+			lib.again = true
+			if c.Bool("lib.again.root") && !hasSpecial(root) { // make sure the decoder asks: the input is a library cell
+				root = ref.NewRCell(ref.Bits{}.AppendUint(2, 8).AppendBytes(root.ReprHash()), true)
+			}
+			c.Class("resolver answers with a library cell again")
 		}
 	}
 	data := ref.SerializeBOC([]*ref.RCell{root}, ref.BocVariant{})
